@@ -52,10 +52,10 @@ var propTable = map[string]propInfo{
 		"a failed segment-writer mutator restores every field it touched before the durability point; no failure return after the durability point; in-memory state switches only after commit and post-commit step succeeded; failed batches never become visible; no storage error dropped; a failed rotation still releases the waiting writer; a failed file creation is never papered over by adopting an existing file.",
 		"the full 'applied in full or not at all after reopen' over fault sequences: runtime state."},
 	"C11": {"Damaged files yield errors, never panics, hangs or silent shortening",
-		"no allocation sized by file bytes without a bound; no index/slice by file-derived values without a bound (incl. the varint byte count); every scan loop advances by >= 8 aligned bytes; sealed segments are header-checked against metadata on Open; a failed Open closes the metadata store and the segments it opened; unknown frame types are errors.",
+		"no allocation sized by file bytes without a bound; no index/slice by file-derived values without a bound (incl. the varint byte count); every scan loop advances by >= 8 aligned bytes; sealed segments are header-checked against metadata on Open; a failed Open closes the metadata store and the segments it opened (the deferred cleanup reads Open's variables when it runs, not a snapshot taken when it was registered); unknown frame types are errors.",
 		"absence of all panics on arbitrary bytes (only the bound classes above); behaviour of json/bbolt on their own corrupt input."},
 	"C12": {"Entry codec round-trips every log and never aliases pooled buffers",
-		"Encode and Decode handle the same six raft.Log fields in the same order with paired primitives; decoded slices are fresh copies; reserved codec IDs rejected and foreign codecs refused before anything is opened; a new segment records the configured codec's ID.",
+		"Encode and Decode handle the same six raft.Log fields in the same order with paired primitives; decoded slices are fresh copies; a pooled read buffer is closed at most once and never touched, re-filled or handed out after its Close; reserved codec IDs rejected and foreign codecs refused before anything is opened; a new segment records the configured codec's ID.",
 		"round-trip equality on boundary values (varint limits, time zones/monotonic readings): value-level."},
 	"C13": {"Disk space is reclaimed and segment identities are never reused",
 		"segment IDs come from a persisted always-incremented counter that is durable before the file exists; every segment dropped from the list is handed to a finalizer that closes and deletes it, run on last release; Open deletes exactly listed-on-disk minus listed-in-metadata; delete is durable (unlink + dir fsync); files are deleted and handles closed only by finalizers or Open.",
@@ -64,21 +64,21 @@ var propTable = map[string]propInfo{
 		"every LogStore/StableStore method starts with the closed check; Close swaps the flag once, then under the lock closes the trigger channel, empties the state, attaches closers, closes the meta store and wakes any writer waiting for a rotation; no call can dereference the emptied state (closed re-checked after the state is pinned / after the lock is held and rotation awaited); the rotation goroutine exits on the closed flag; nothing Close tears down is read unsynchronised; Close closes no segment handle inline (only through the finalizer of the emptied state).",
 		"freedom from deadlock/panic over all interleavings in general; 'correct results' of racing calls."},
 	"C15": {"Entry-size boundaries: whatever is accepted is readable",
-		"the write path refuses (ErrTooBig, before buffering) exactly what the read paths reject, against the same constant; the large-frame second read is bounded.",
+		"the write path refuses (ErrTooBig, before buffering) exactly what the read paths reject, against the same constant; the large-frame second read is bounded; the file offset recorded for an entry combines a buffer position only with the write offset that was current when the position was taken (no flush in between).",
 		"behaviour at each boundary size (64 KiB +- 16, segment size +- overhead): value-level."},
 	"C16": {"Verifier raises no false alarms",
 		"one hash function serves leader, follower-write and read-back; the running sum is committed only after the inner store accepted the batch; first-index check before reading; range mismatch, written-sum suppression and both comparisons have exactly the stated polarity; a truncation of the wrapped log restarts the running sum.",
 		"absence of false alarms over replication histories (needs the histories)."},
 	"C17": {"Verifier detects every divergence inside a verified range",
-		"all five compared fields feed the chained hash; the read-back covers [Start,End) exactly; write-side then read-side comparison, mismatch => ErrChecksumMismatch; checkpoint metadata encode/decode agree.",
+		"all five compared fields feed the chained hash and the only entry that may be left out of the chain is index 1 (no return of the hash routine bypasses the chain anywhere else); the read-back covers [Start,End) exactly; write-side then read-side comparison, mismatch => ErrChecksumMismatch; checkpoint metadata encode/decode agree.",
 		"detection for every mutation/position (hash behaviour; histories)."},
 	"C18": {"Verifier is transparent and never blocks appends",
-		"pure delegation of FirstIndex/LastIndex/GetLog/DeleteRange/StoreLogs; only a leader checkpoint's empty Extensions is written, foreign extensions => error; non-blocking hand-off with the drop counted; the callback is never on the append path; one callback per received report.",
+		"pure delegation of FirstIndex/LastIndex/GetLog/DeleteRange/StoreLogs; only a leader checkpoint's empty Extensions is written, foreign extensions => error; non-blocking hand-off with the drop counted; checkpoints and drops are counted only after the wrapped store accepted the batch; every checkpoint of a batch is handed off; the callback is never on the append path; one callback per received report.",
 		"'exactly one report or one drop per checkpoint' as a count over timings; skipped-range contents."},
 	"C19": {"Migration copies the log and stable keys faithfully",
 		"progress always closed; cancellation checked each iteration and returned; nothing appended is left unflushed or flushed twice; one fresh raft.Log per entry; [first,last] inclusive; the standard raft keys with the accessor kinds raft uses; the empty source handled before the loop.",
 		"field-by-field equality of destination and source over contents and store pairings."},
 	"C20": {"Metrics are declared and add up",
-		"complete for the property's own static quantifier (every emitting call site): names are compile-time constants, declared in the same package's MetricDefinitions under the matching kind, unique across kinds; the one arithmetic hazard with a code shape (unsigned subtraction from the empty-log sentinel) is guarded.",
+		"complete for the property's own static quantifier (every emitting call site): names are compile-time constants, declared in the same package's MetricDefinitions under the matching kind, unique across kinds; the one arithmetic hazard with a code shape (unsigned subtraction from the empty-log sentinel, incl. the tail writer's own LastIndex() of an empty tail) is guarded; the partial-segment terms of the truncation counters; verifier counters only after the wrapped store accepted the batch.",
 		"equality of counters with true totals over operation sequences."},
 }
